@@ -32,6 +32,10 @@ def run(rep, idx, tier):
     rep.require("C14.4", 3)
     rep.require("C14.5", 1)
     rep.require("C14.6", 1)
+    # bit k of the enable / pending registers is event k of the map: one number per source (the event map's own book-keeping)
+    rep.require("C14.8", 5)
+    from . import apirules as _api
+    _api.eventmap_typestate(rep, idx, "C14.8")
     from . import glue as _g6
     _g6.reset_discipline(rep, "C14.6", idx, ["csr/event:EventMonitor"])
     from . import glue as _glue
